@@ -62,7 +62,11 @@ func suiteAlloc(args []string) {
 	planted := []uint32{1 << 16, 1 << 20, 1 << 24, 1 << 31, 0xffffffff, 0xfffffff8}
 	worst := 0.0
 	var worstCase map[string]interface{}
+	stopped := false
 	check := func(tn string, data []byte, what string) {
+		if stopped {
+			return
+		}
 		a, obs := measureDecode(tn, data)
 		rep.Evaluations++
 		// the same input through the reader-object decoder of Readers.v, whose allocation ledger theorem C05_alloc_linear bounds
@@ -75,8 +79,14 @@ func suiteAlloc(args []string) {
 			worst = ratio
 			worstCase = map[string]interface{}{"type": tn, "len": len(data), "alloc": a, "bound": bound, "what": what}
 		}
-		if a > bound && len(rep.Violations) < 10 {
+		if a > bound {
 			rep.Violations = append(rep.Violations, map[string]interface{}{"kind": "alloc", "type": tn, "bytes": hexBytes(data), "input_len": len(data), "allocated": a, "bound": bound, "what": what, "decode": obs})
+			// each violation may have cost gigabytes and the collector is off: give the memory back, and stop after three
+			runtime.GC()
+			debug.FreeOSMemory()
+			if len(rep.Violations) >= 3 {
+				stopped = true
+			}
 		}
 		if rep.Evaluations%64 == 0 {
 			runtime.GC()
